@@ -2,8 +2,8 @@
 import os
 from tools.py2lean import gen_c08
 
-LEAN_TARGETS = ["EasyFEAVerif.Props.C08"]
-PROPS_MODULES = ["EasyFEAVerif.Props.C08"]
+LEAN_TARGETS = ["EasyFEAVerif.Props.C08", "EasyFEAVerif.Props.C08Units"]
+PROPS_MODULES = ["EasyFEAVerif.Props.C08", "EasyFEAVerif.Props.C08Units"]
 TRUSTED_EXTRA = [
     "C08: _Rotation_matrix is translated from the source; Rotate / Symmetry / Translate / Get_normals_e_pg / Get_jacobian_e_pg are matched statement by statement (the generator refuses anything else); numpy's cross product and einsum are read as documented",
     "C08: that the element measures add up to the measure of the polygon / polyhedron (tiling) and the point-in-element predicates are exercised on the real code, not proved; scipy.optimize.least_squares (non-affine inverse map) is external: only 'zero residual ⇒ linear fields reproduced' is proved",
